@@ -8,6 +8,7 @@ import (
 	"net"
 	"net/netip"
 	"os"
+	"strings"
 	"sync"
 	"time"
 
@@ -67,7 +68,7 @@ func ConformCases(prop, tier string, stride int) []ConformCase {
 	ch.Run(harness.NewCtx(prop, tier, 0, 1, 0, 0))
 	var out []ConformCase
 	for i, cs := range all {
-		if cs.Expect == "second-connection" || cs.Cfg == "lhold3" {
+		if cs.Expect == "second-connection" || strings.HasPrefix(cs.Cfg, "lhold3") || cs.Cfg == "slowclose" {
 			continue // two connections / periodic KEEPALIVEs inside the observation window: not interpreted by realStim
 		}
 		if stride > 1 && i%stride != 0 {
